@@ -99,11 +99,12 @@ fn status_of(n: i64) -> ClockStatus {
     }
 }
 
-/// writegen <start generation>: run the real ShmWriter::write once from the given generation and report the
-/// values it stores into the generation field, what memory holds right before the final store, and whether the
-/// record had been written by then.
+/// writegen <start generation> [<n writes>]: create a real ShmWriter on a segment left at the given generation (0 = not
+/// initialised: the writer wipes it) and run the real ShmWriter::write n times; per write report the values it stores into
+/// the generation field, what memory holds right before each store, and the value memory holds afterwards.
 pub fn cmd_writegen(a: &[&str]) -> String {
     let g0: u16 = a.get(0).and_then(|x| x.parse().ok()).unwrap_or(2);
+    let n: usize = a.get(1).and_then(|x| x.parse().ok()).unwrap_or(1);
     let path = tmp_path("wg");
     let mut bytes = header_bytes(72, 1, g0);
     bytes.extend_from_slice(&[0u8; 56]);
@@ -112,35 +113,47 @@ pub fn cmd_writegen(a: &[&str]) -> String {
         let mut w = ShmWriter::new(std::path::Path::new(&path)).expect("ShmWriter::new");
         let drv = DriverMap::new(&path, 72);
         let drv_ptr = drv.ptr as usize;
-        let log: std::rc::Rc<std::cell::RefCell<Vec<String>>> = Default::default();
-        let log2 = log.clone();
-        let mut nstore = 0;
-        set_observer(Some(Box::new(move |acc| {
-            if let Access::Store { value, .. } = acc {
-                nstore += 1;
-                let mem_gen = unsafe { std::ptr::read_volatile((drv_ptr + 14) as *const u16) };
-                let mem_bound = unsafe { std::ptr::read_volatile((drv_ptr + 16 + 32) as *const i64) };
-                log2.borrow_mut().push(format!("store{}={} mem_gen_before{}={} mem_bound_before{}={}", nstore, value, nstore, mem_gen, nstore, mem_bound));
+        let mut out: Vec<String> = Vec::new();
+        for i in 1..=n {
+            let log: std::rc::Rc<std::cell::RefCell<Vec<String>>> = Default::default();
+            let log2 = log.clone();
+            let vals: std::rc::Rc<std::cell::RefCell<Vec<(u64, u16)>>> = Default::default();
+            let vals2 = vals.clone();
+            let mut nstore = 0;
+            let start = drv.get_u16(14);
+            set_observer(Some(Box::new(move |acc| {
+                if let Access::Store { value, .. } = acc {
+                    nstore += 1;
+                    let mem_gen = unsafe { std::ptr::read_volatile((drv_ptr + 14) as *const u16) };
+                    let mem_bound = unsafe { std::ptr::read_volatile((drv_ptr + 16 + 32) as *const i64) };
+                    vals2.borrow_mut().push((value as u64, mem_gen));
+                    log2.borrow_mut().push(format!("store{}={} mem_gen_before{}={} mem_bound_before{}={}", nstore, value, nstore, mem_gen, nstore, mem_bound));
+                }
+            })));
+            let ceb = ClockErrorBound::new(
+                libc::timespec { tv_sec: 7, tv_nsec: 7 },
+                libc::timespec { tv_sec: 7, tv_nsec: 7 },
+                776 + i as i64,
+                7,
+                7,
+                ClockStatus::Synchronized,
+            );
+            w.write(&ceb);
+            set_observer(None);
+            let fin = drv.get_u16(14);
+            if i == 1 {
+                out.push(format!("{} final_mem={}", log.borrow().join(" "), fin));
             }
-        })));
-        let ceb = ClockErrorBound::new(
-            libc::timespec { tv_sec: 7, tv_nsec: 7 },
-            libc::timespec { tv_sec: 7, tv_nsec: 7 },
-            777,
-            7,
-            7,
-            ClockStatus::Synchronized,
-        );
-        w.write(&ceb);
-        set_observer(None);
-        let fin = drv.get_u16(14);
-        let l = log.borrow().join(" ");
-        format!("{} final_mem={}", l, fin)
+            let v = vals.borrow();
+            let stores: Vec<String> = v.iter().map(|(x, m)| format!("{}@{}", x, m)).collect();
+            out.push(format!("w{}={}:{}:{}", i, start, stores.join(","), fin));
+        }
+        out.join(" ")
     });
     let _ = std::fs::remove_file(&path);
     match res {
         Ok(s) => {
-            // normalise: inflight = first stored value, final = second
+            // normalise: inflight = first stored value, final = second (of the first write)
             let mut inflight = String::new();
             let mut fin = String::new();
             for tok in s.split_whitespace() {
@@ -151,7 +164,7 @@ pub fn cmd_writegen(a: &[&str]) -> String {
                     fin = v.to_string();
                 }
             }
-            format!("ok inflight={} final={} {}", inflight, fin, s.replace(' ', " "))
+            format!("ok inflight={} final={} {}", inflight, fin, s)
         }
         Err(p) => format!("panic {}", crate::panic_msg(&p)),
     }
